@@ -30,8 +30,8 @@ LEVEL = "exploration"
 RULE = (
     "Histories of 1..7 commands on a generated tree (3..20 nodes: names on both sides of the exclusion rules, empty / binary files, symlinks to files, "
     "directories, nowhere and into a sentinel directory outside the project, LICENSES/, .reuse/, .hg, subprojects; half of them Git repositories with "
-    "ignore rules; some files 0444; optional valid .reuse/dep5 or REUSE.toml).  Commands: lint (4 formats, pool on/off), lint-file, spdx [-o], "
-    "supported-licenses, --help, --version, annotate FILES / -r DIRS (dot-license options, styles), convert-dep5, download (LicenseRef- locally, SPDX "
+    "ignore rules; some files 0444; optional valid .reuse/dep5 or REUSE.toml; optional pre-existing empty LICENSES/ and output directories; optional FILE.license / LICENSES/LicenseRef-verif.txt symlinks into the sentinel directory, existing or dangling).  Commands: lint (4 formats, pool on/off), lint-file, spdx [-o], "
+    "supported-licenses, --help, --version, annotate FILES / -r DIRS (dot-license options, styles), --root DIR annotate -r DIR (DIR a sub-directory, e.g. of a Git work tree), convert-dep5, download (LicenseRef- locally, SPDX "
     "ids via a loopback stub, -o).  Invariant per step: snapshot (type, size, mode, mtime_ns, sha1, link target) delta is empty for the read-only "
     "commands and for every exit-2 invocation, {-o file} for spdx, named regular files / covered files below named directories and their .license "
     "siblings for annotate, {-dep5, +REUSE.toml} for convert-dep5, new LICENSES/<id>.txt or -o for download; the outside sentinel is always unchanged.  "
@@ -39,7 +39,7 @@ RULE = (
 )
 ASSUMPTIONS = [
     "covered files below a directory = vlib/ref/covered.py + git check-ignore (as in C03)",
-    "annotate is given regular files or directories, never a symlink; .license siblings are never symlinks (whether a named symlink stands for its target is not stated)",
+    "annotate is given regular files or directories, never a symlink (whether a named symlink stands for its target is not stated); a FILE.license that is a symlink must not be written through",
     "the sandbox runs as root: permission bits are only checked for preservation",
 ]
 
@@ -92,8 +92,10 @@ class Machine(RuleBasedStateMachine):
         self.mutating = 0
         self.readonly = 0
 
-    @initialize(spec=GT.tree_spec(max_nodes=20), glob=st.sampled_from(["none", "none", "dep5", "toml"]), ro=st.lists(st.integers(0, 30), max_size=3))
-    def setup(self, spec, glob, ro):
+    @initialize(spec=GT.tree_spec(max_nodes=20), glob=st.sampled_from(["none", "none", "dep5", "toml"]), ro=st.lists(st.integers(0, 30), max_size=3),
+                empty_dirs=st.lists(st.sampled_from(["LICENSES", "emptyout"]), max_size=2, unique=True),
+                links=st.lists(st.tuples(st.sampled_from(["sibling-existing", "sibling-dangling", "licence-dangling"]), st.integers(0, 30)), max_size=2))
+    def setup(self, spec, glob, ro, empty_dirs=(), links=()):
         self.base = self.ctx.fresh_dir()
         self.root = self.base / "proj"
         self.root.mkdir()
@@ -112,13 +114,29 @@ class Machine(RuleBasedStateMachine):
         self.has_git = bool(spec["git"])
         self.glob = glob
         GT.materialise(self.root, spec)
+        # pre-existing empty directories (a failed download must leave them alone)
+        for dname in empty_dirs:
+            if not os.path.lexists(self.root / dname):
+                os.mkdir(self.root / dname)
         files = sorted(p for p, v in nodes.items() if v[0] in ("text", "binary"))
+        # symbolic links where the commands write: FILE.license pointing at a file (or at nothing) outside the project,
+        # LICENSES/LicenseRef-verif.txt pointing at nothing outside the project
+        for what, i in links:
+            if what == "licence-dangling":
+                lp = self.root / "LICENSES" / "LicenseRef-verif.txt"
+                if os.path.isdir(self.root / "LICENSES") and not os.path.lexists(lp):
+                    os.symlink(str(self.sentinel / "created-through-link.txt"), lp)
+            elif files:
+                f = files[i % len(files)]
+                lp = self.root / (f + ".license")
+                if not f.endswith(".license") and not os.path.lexists(lp) and not os.path.islink(self.root / f):
+                    os.symlink(str(self.sentinel / ("x.py.license" if what == "sibling-existing" else "dangling.license")), lp)
         for i in ro:
             if files:
                 os.chmod(self.root / files[i % len(files)], 0o444)
         self.has_link = any(v[0] == "symlink" for v in nodes.values())
         self.has_ignored = bool(spec["git"] and spec["git"]["ignore"])
-        self.history.append({"nodes": nodes, "git": spec["git"], "glob": glob, "readonly": ro})
+        self.history.append({"nodes": nodes, "git": spec["git"], "glob": glob, "readonly": ro, "empty_dirs": list(empty_dirs), "links": [list(x) for x in links]})
         self.sent0 = snapshot(self.sentinel)
 
     # ---- helpers
@@ -135,7 +153,7 @@ class Machine(RuleBasedStateMachine):
                     out.add(d)
         return sorted(out)
 
-    def _run(self, args, allowed_fn, kind, cwd=None, plan=None):
+    def _run(self, args, allowed_fn, kind, cwd=None, plan=None, signature=""):
         before = snapshot(self.root)
         if plan is not None:
             with STUB.active(plan):
@@ -159,7 +177,8 @@ class Machine(RuleBasedStateMachine):
             extra = {p for p in extra if not (p.startswith("LICENSES/") and after.get(p, ("",))[0] == "d" and before.get(p) is None)}
         if extra:
             detail = {p: (before.get(p), after.get(p)) for p in sorted(extra)[:4]}
-            raise Violation(case, f"`reuse {' '.join(map(str, args))}` (exit {res.code}) touched {sorted(extra)} — allowed for this command: {sorted(allowed)[:12]}; before/after {detail}")
+            # (a listed known finding is counted and the history goes on; anything else raises)
+            self.ctx.fail(case, f"`reuse {' '.join(map(str, args))}` (exit {res.code}) touched {sorted(extra)} — allowed for this command: {sorted(allowed)[:12]}; before/after {detail}", signature)
         if kind == "ro":
             self.readonly += 1
         elif delta:
@@ -202,7 +221,6 @@ class Machine(RuleBasedStateMachine):
           style=st.sampled_from([None, None, "python", "c"]), merge=st.booleans())
     def annotate_files(self, picks, dot, style, merge):
         files = [p for p in self._regular_files() if not p.startswith((".reuse/", "LICENSES/")) or True]
-        files = [p for p in files if not os.path.islink(self.root / (p + ".license"))]
         if not files:
             return
         chosen = sorted({files[i % len(files)] for i in picks})
@@ -214,7 +232,8 @@ class Machine(RuleBasedStateMachine):
         if merge:
             args.append("--merge-copyrights")
         args += ["--", *chosen]
-        self._run(args, lambda b: {x for p in chosen for x in (p, p + ".license")}, "mut")
+        # a FILE.license that is a symbolic link is never written through (the file itself may get the header instead)
+        self._run(args, lambda b: {x for p in chosen for x in ((p, p + ".license") if not os.path.islink(self.root / (p + ".license")) else (p,))}, "mut")
 
     @precondition(lambda self: self.base is not None and len(self.history) <= 7)
     @rule(picks=st.lists(st.integers(0, 100), min_size=1, max_size=2), dot=st.sampled_from(["--fallback-dot-license", "--skip-unrecognised", "--force-dot-license"]))
@@ -229,11 +248,45 @@ class Machine(RuleBasedStateMachine):
         def allowed(before):
             out = set()
             for p in cov | unspec:
-                if below(p) and not os.path.islink(self.root / (p + ".license")):
-                    out |= {p, p + ".license"}
+                if below(p):
+                    out |= {p, p + ".license"} if not os.path.islink(self.root / (p + ".license")) else {p}
             return out
 
         self._run(["annotate", "--copyright", "Verif", "--license", "MIT", "--year", "2020", dot, "-r", "--", *chosen], allowed, "mut")
+
+    @precondition(lambda self: self.base is not None and len(self.history) <= 7)
+    @rule(pick=st.integers(0, 100), dot=st.sampled_from(["--fallback-dot-license", "--skip-unrecognised", "--force-dot-license"]))
+    def annotate_recursive_subroot(self, pick, dot):
+        """`--root DIR annotate -r DIR` from the top of the tree: DIR is the project root now, but the ignore rules of the
+        enclosing Git repository still hold."""
+        dirs = [d for d in self._dirs() if not d.startswith((".git", ".hg")) and "/.git" not in d]
+        if not dirs:
+            return
+        d = dirs[pick % len(dirs)]
+        cov, unspec = covered_files(self.root, self.has_git)
+        # classification relative to DIR as the root (LICENSES/, .reuse/ ... directly below it); either reading is allowed
+        sub = GT.all_paths(self.root / d)
+        ignored = GT.git_ignored(self.root, [f"{d}/{p}" for p, _k, _s in sub]) if self.has_git else set()
+        loose = set()
+        for p, kind, size in sub:
+            v, _w = RC.classify(p, kind, size, vcs_ignored=f"{d}/{p}" in ignored)
+            if v != RC.EXCLUDED:
+                loose.add(f"{d}/{p}")
+        all_ignored = GT.git_ignored(self.root, sorted(cov | unspec | loose)) if self.has_git else set()
+
+        def allowed(before):
+            out = set()
+            for p in (cov | unspec | loose) - all_ignored:
+                if p.startswith(d + "/"):
+                    out |= {p, p + ".license"} if not os.path.islink(self.root / (p + ".license")) else {p}
+            return out
+
+        self.ctx.label("annotate:--root-subdir")
+        # recorded finding: a root that sits inside a directory Git ignores as a whole
+        chain = [d.rsplit("/", k)[0] for k in range(d.count("/"), -1, -1)] if self.has_git else []
+        whole = bool(self.has_git and GT.git_ignored(self.root, chain))
+        self._run(["--root", d, "annotate", "--copyright", "Verif", "--license", "MIT", "--year", "2020", dot, "-r", "--", d], allowed, "mut",
+                  signature="root-inside-ignored-directory" if whole else "")
 
     # ---- convert-dep5
     @precondition(lambda self: self.base is not None and len(self.history) <= 7)
@@ -245,7 +298,7 @@ class Machine(RuleBasedStateMachine):
     @precondition(lambda self: self.base is not None and len(self.history) <= 7)
     @rule(ids=st.lists(st.sampled_from(["MIT", "ISC", "LicenseRef-verif", "GPL-2.0+", "nope", "../LicenseRef-up", "../../outside-sentinel/LicenseRef-out", "src/LicenseRef-sub"]),
                        min_size=1, max_size=3, unique=True), all_=st.integers(0, 3),
-          out=st.sampled_from([None, None, None, "downloaded.txt", "existing"]), plan=st.sampled_from(["ok", "ok", "404", "reset"]),
+          out=st.sampled_from([None, None, None, "downloaded.txt", "existing", "emptyout/lic.txt"]), plan=st.sampled_from(["ok", "ok", "404", "reset"]),
           source=st.sampled_from([None, None, "file", "dir"]))
     def download(self, ids, all_, out, plan, source):
         args = ["download"]
@@ -253,6 +306,8 @@ class Machine(RuleBasedStateMachine):
             # an -o path that already exists must never be replaced
             files = self._regular_files()
             out = files[0] if files else "downloaded.txt"
+        if out == "emptyout/lic.txt" and not os.path.isdir(self.root / "emptyout"):
+            out = "downloaded.txt"
         if source:
             args += ["--source", str(self.sentinel / "LicenseRef-verif.txt") if source == "file" else str(self.sentinel)]
         if all_ == 0:
@@ -315,7 +370,7 @@ def replay(ctx, case):
     m = Machine.__new__(Machine)
     m.ctx, m.base, m.history, m.mutating, m.readonly = ctx, None, [], 0, 0
     spec = {"nodes": {k: tuple(v) for k, v in init["nodes"].items()}, "git": init["git"]}
-    Machine.setup(m, spec, init["glob"], init["readonly"])
+    Machine.setup(m, spec, init["glob"], init["readonly"], tuple(init.get("empty_dirs", ())), tuple(tuple(x) for x in init.get("links", ())))
     try:
         for step in hist[1:]:
             ro = step["kind"] == "ro"
